@@ -65,7 +65,7 @@ Definition tmult_b (q : simple) (k : ikind) (z : Z) : bool :=
   match q_multiple_of q with
   | None => true
   | Some f => ok_b f && match n_exact_int N f with
-                        | None => ikind_signed k
+                        | None => true
                         | Some g => (le53_b g && small_b z && ((g <=? 0) || Z.eqb (z mod g) 0)) || (mi && small26_b g && small26_b z)
                         end
   end.
@@ -82,7 +82,7 @@ Proof.
     + right. apply andb_true_iff in H. destruct H as [H B]. apply andb_true_iff in H. destruct H as [M A].
       split; [apply mi_sound; exact M|]. exists g.
       split; [apply (ex_int _ _ _ X f g (ok_b_sound f Hf)); exact E | split; [apply small26_b_sound; exact A | apply small26_b_sound; exact B]].
-  - left. split; [exact H | reflexivity].
+  - left. reflexivity.
 Qed.
 
 Fixpoint tfits_b (q : simple) (d : goval) {struct q} : bool :=
